@@ -23,42 +23,6 @@ def wfVals : List (Obj × Obj) → Bool
   | (_, v) :: rest => v.wf && wfVals rest
 end
 
-/-! ### plain objects (evaluate to themselves) and clean objects (no element of a non-task, non-key tuple that would have to be evaluated) -/
-
-mutual
-def plain (keys : List Obj) : Obj → Bool
-  | .tuple (h :: args) => !h.callable && !inKeys keys (.tuple (h :: args)) && plain keys h && plainList keys args
-  | .tuple [] => !inKeys keys (.tuple [])
-  | .list xs => plainList keys xs
-  | .dict kvs => plainVals keys kvs
-  | .int n => !inKeys keys (.int n)
-  | .str s => !inKeys keys (.str s)
-  | _ => true
-def plainList (keys : List Obj) : List Obj → Bool
-  | [] => true
-  | x :: xs => plain keys x && plainList keys xs
-def plainVals (keys : List Obj) : List (Obj × Obj) → Bool
-  | [] => true
-  | (_, v) :: rest => plain keys v && plainVals keys rest
-end
-
-mutual
-def clean (keys : List Obj) : Obj → Bool
-  | .tuple (h :: args) =>
-    if h.callable then cleanList keys args
-    else if inKeys keys (.tuple (h :: args)) then true
-    else plain keys h && plainList keys args
-  | .list xs => cleanList keys xs
-  | .dict kvs => cleanVals keys kvs
-  | _ => true
-def cleanList (keys : List Obj) : List Obj → Bool
-  | [] => true
-  | x :: xs => clean keys x && cleanList keys xs
-def cleanVals (keys : List Obj) : List (Obj × Obj) → Bool
-  | [] => true
-  | (_, v) :: rest => clean keys v && cleanVals keys rest
-end
-
 /-! ### basic facts -/
 
 theorem evalNodes_raw (env : Obj → Option Obj) : ∀ xs : List Obj, evalNodes env (xs.map Node.raw) = some xs
@@ -72,83 +36,6 @@ theorem any_isGraphNode_raw : ∀ xs : List Obj, (xs.map Node.raw).any Node.isGr
 theorem any_isGraphNode_rawItems : ∀ kvs : List (Obj × Obj), (rawItems kvs).any Node.isGraphNode = false
   | [] => rfl
   | (k, v) :: rest => by simp [rawItems, Node.isGraphNode, any_isGraphNode_rawItems rest]
-
-mutual
-theorem convert_plain (keys : List Obj) : ∀ o, plain keys o = true → convert keys o = .raw o
-  | .tuple (h :: args), hp => by
-    simp only [plain, Bool.and_eq_true, Bool.not_eq_true'] at hp
-    obtain ⟨⟨⟨h1, h2⟩, h3⟩, h4⟩ := hp
-    have e1 := convert_plain keys h h3
-    have e2 := convertList_plain keys args h4
-    simp [convert, h1, h2, convertList, e1, e2, Node.isGraphNode]
-  | .tuple [], hp => by
-    simp only [plain, Bool.not_eq_true'] at hp
-    simp [convert, hp]
-  | .list xs, hp => by
-    simp only [plain] at hp
-    simp [convert, convertList_plain keys xs hp, Node.isGraphNode]
-  | .dict kvs, hp => by
-    simp only [plain] at hp
-    simp [convert, convertVals_plain keys kvs hp, any_isGraphNode_rawItems]
-  | .int n, hp => by
-    simp only [plain, Bool.not_eq_true'] at hp
-    simp [convert, hp]
-  | .str s, hp => by
-    simp only [plain, Bool.not_eq_true'] at hp
-    simp [convert, hp]
-  | .none, _ => by simp [convert]
-  | .fn _, _ => by simp [convert]
-  | .quoted _, _ => by simp [convert]
-  | .app _ _ _, _ => by simp [convert]
-theorem convertList_plain (keys : List Obj) : ∀ xs, plainList keys xs = true → convertList keys xs = xs.map .raw
-  | [], _ => by simp [convertList]
-  | x :: xs, hp => by
-    simp only [plainList, Bool.and_eq_true] at hp
-    simp [convertList, convert_plain keys x hp.1, convertList_plain keys xs hp.2]
-theorem convertVals_plain (keys : List Obj) : ∀ kvs, plainVals keys kvs = true → convertVals keys kvs = rawItems kvs
-  | [], _ => by simp [convertVals, rawItems]
-  | (k, v) :: rest, hp => by
-    simp only [plainVals, Bool.and_eq_true] at hp
-    simp [convertVals, rawItems, convert_plain keys v hp.1, convertVals_plain keys rest hp.2]
-end
-
-mutual
-theorem evalObj_plain (keys : List Obj) (env : Obj → Option Obj) : ∀ o, plain keys o = true → evalObj keys env o = some o
-  | .tuple (h :: args), hp => by
-    simp only [plain, Bool.and_eq_true, Bool.not_eq_true'] at hp
-    simp [evalObj, hp.1.1.1, hp.1.1.2]
-  | .tuple [], hp => by
-    simp only [plain, Bool.not_eq_true'] at hp
-    simp [evalObj, hp]
-  | .list xs, hp => by
-    simp only [plain] at hp
-    simp [evalObj, evalObjs_plain keys env xs hp]
-  | .dict kvs, hp => by
-    simp only [plain] at hp
-    simp [evalObj, evalVals_plain keys env kvs hp]
-  | .int n, hp => by
-    simp only [plain, Bool.not_eq_true'] at hp
-    simp [evalObj, hp]
-  | .str s, hp => by
-    simp only [plain, Bool.not_eq_true'] at hp
-    simp [evalObj, hp]
-  | .none, _ => by simp [evalObj]
-  | .fn _, _ => by simp [evalObj]
-  | .quoted _, _ => by simp [evalObj]
-  | .app _ _ _, _ => by simp [evalObj]
-theorem evalObjs_plain (keys : List Obj) (env : Obj → Option Obj) : ∀ xs, plainList keys xs = true →
-    evalObjs keys env xs = some xs
-  | [], _ => by simp [evalObjs]
-  | x :: xs, hp => by
-    simp only [plainList, Bool.and_eq_true] at hp
-    simp [evalObjs, evalObj_plain keys env x hp.1, evalObjs_plain keys env xs hp.2]
-theorem evalVals_plain (keys : List Obj) (env : Obj → Option Obj) : ∀ kvs, plainVals keys kvs = true →
-    evalVals keys env kvs = some kvs
-  | [], _ => by simp [evalVals]
-  | (k, v) :: rest, hp => by
-    simp only [plainVals, Bool.and_eq_true] at hp
-    simp [evalVals, evalObj_plain keys env v hp.1, evalVals_plain keys env rest hp.2]
-end
 
 /-- `convert` answers `raw` only with the object itself, and never `ref` -/
 theorem convert_not_graphNode (keys : List Obj) (o : Obj) (h : (convert keys o).isGraphNode = false) :
@@ -165,10 +52,8 @@ theorem convert_not_graphNode (keys : List Obj) (o : Obj) (h : (convert keys o).
       · simp [Node.isGraphNode] at h
       · split at h
         · simp [Node.isGraphNode] at h
-        · split at h
-          · simp [Node.isGraphNode] at h
-          · rename_i h1 h2 h3
-            simp [h1, h2, h3]
+        · rename_i h1 h2
+          simp [h1, h2]
   | list xs =>
     simp only [convert] at h ⊢
     split at h
@@ -285,7 +170,7 @@ end Dask.TaskTerm
 
 namespace Dask.TaskTerm
 
-/-! ### dependencies of converted nodes vs `get_dependencies` (on clean objects) -/
+/-! ### dependencies of converted nodes vs `get_dependencies` -/
 
 theorem inKeys_iff_ref (keys : List Obj) (hKt : ∀ k ∈ keys, k.keyTyped = true) (o : Obj) :
     inKeys keys o = (o.hashable && keys.contains o) := by
@@ -304,55 +189,6 @@ theorem not_key_of_not_keyTyped (keys : List Obj) (hKt : ∀ k ∈ keys, k.keyTy
     rw [hKt o this] at h; cases h
   | false => simp
 
-mutual
-theorem legacyRefs_plain (keys : List Obj) (hKt : ∀ k ∈ keys, k.keyTyped = true) :
-    ∀ o, plain keys o = true → legacyRefs keys o = []
-  | .tuple (h :: args), hp => by
-    simp only [plain, Bool.and_eq_true, Bool.not_eq_true'] at hp
-    have h2 := hp.1.1.2
-    rw [inKeys_iff_ref keys hKt] at h2
-    simp only [legacyRefs, hp.1.1.1, Bool.false_eq_true, if_false, h2]
-  | .tuple [], hp => by
-    simp only [plain, Bool.not_eq_true'] at hp
-    rw [inKeys_iff_ref keys hKt] at hp
-    simp only [Obj.hashable, hashableList, Bool.true_and] at hp
-    simp only [legacyRefs, hp, Bool.false_eq_true, if_false]
-  | .list xs, hp => by
-    simp only [plain] at hp
-    simp only [legacyRefs, legacyRefsList_plain keys hKt xs hp]
-  | .dict kvs, hp => by
-    simp only [plain] at hp
-    simp only [legacyRefs, legacyRefsVals_plain keys hKt kvs hp]
-  | .int n, hp => by
-    simp only [plain, Bool.not_eq_true'] at hp
-    rw [inKeys_iff_ref keys hKt] at hp
-    simp only [legacyRefs, hp, Bool.false_eq_true, if_false]
-  | .str s, hp => by
-    simp only [plain, Bool.not_eq_true'] at hp
-    rw [inKeys_iff_ref keys hKt] at hp
-    simp only [legacyRefs, hp, Bool.false_eq_true, if_false]
-  | .none, _ => by
-    simp only [legacyRefs, not_key_of_not_keyTyped keys hKt .none rfl, Bool.false_eq_true, if_false]
-  | .fn f, _ => by
-    simp only [legacyRefs, not_key_of_not_keyTyped keys hKt (.fn f) rfl, Bool.false_eq_true, if_false]
-  | .quoted v, _ => by
-    simp only [legacyRefs, not_key_of_not_keyTyped keys hKt (.quoted v) rfl, Bool.false_eq_true, if_false]
-  | .app f a k, _ => by
-    simp only [legacyRefs, not_key_of_not_keyTyped keys hKt (.app f a k) rfl, Bool.false_eq_true, if_false]
-theorem legacyRefsList_plain (keys : List Obj) (hKt : ∀ k ∈ keys, k.keyTyped = true) :
-    ∀ xs, plainList keys xs = true → legacyRefsList keys xs = []
-  | [], _ => by simp [legacyRefsList]
-  | x :: xs, hp => by
-    simp only [plainList, Bool.and_eq_true] at hp
-    simp [legacyRefsList, legacyRefs_plain keys hKt x hp.1, legacyRefsList_plain keys hKt xs hp.2]
-theorem legacyRefsVals_plain (keys : List Obj) (hKt : ∀ k ∈ keys, k.keyTyped = true) :
-    ∀ kvs, plainVals keys kvs = true → legacyRefsVals keys kvs = []
-  | [], _ => by simp [legacyRefsVals]
-  | (_, v) :: rest, hp => by
-    simp only [plainVals, Bool.and_eq_true] at hp
-    simp [legacyRefsVals, legacyRefs_plain keys hKt v hp.1, legacyRefsVals_plain keys hKt rest hp.2]
-end
-
 theorem depsList_raw : ∀ xs : List Obj, depsList (xs.map Node.raw) = []
   | [] => rfl
   | x :: xs => by simp [depsList, Node.deps, depsList_raw xs]
@@ -362,23 +198,21 @@ theorem depsList_rawItems : ∀ kvs : List (Obj × Obj), depsList (rawItems kvs)
   | (k, v) :: rest => by simp [rawItems, depsList, Node.deps, depsList_rawItems rest]
 
 mutual
-/-- **On clean objects the converted node depends on exactly what `get_dependencies` reports** (same list). -/
+/-- **The converted node depends on exactly what `get_dependencies` reports** (the same list, in the same order). -/
 theorem convert_deps (keys : List Obj) (hKt : ∀ k ∈ keys, k.keyTyped = true) :
-    ∀ o, clean keys o = true → (convert keys o).deps = legacyRefs keys o
-  | .tuple (h :: args), hc => by
-    simp only [clean] at hc
+    ∀ o, (convert keys o).deps = legacyRefs keys o
+  | .tuple (h :: args) => by
     by_cases h1 : h.callable = true
-    · simp only [h1, if_true] at hc
-      simp [convert, legacyRefs, h1, Node.deps, depsKw, convertList_deps keys hKt args hc]
-    · simp only [h1, Bool.false_eq_true, if_false] at hc
-      by_cases h2 : inKeys keys (.tuple (h :: args)) = true
+    · simp [convert, legacyRefs, h1, Node.deps, depsKw, convertList_deps keys hKt args]
+    · by_cases h2 : inKeys keys (.tuple (h :: args)) = true
       · have h2' := h2
         rw [inKeys_iff_ref keys hKt] at h2'
         simp only [convert, legacyRefs, h1, h2, h2', Node.deps, Bool.false_eq_true, if_false, if_true]
-      · simp only [h2, Bool.false_eq_true, if_false, Bool.and_eq_true] at hc
-        have hp : plain keys (.tuple (h :: args)) = true := by simp [plain, h1, h2, hc.1, hc.2]
-        rw [convert_plain keys _ hp, legacyRefs_plain keys hKt _ hp]; rfl
-  | .tuple [], _ => by
+      · have h2f : inKeys keys (.tuple (h :: args)) = false := by simpa using h2
+        have h2' := h2f
+        rw [inKeys_iff_ref keys hKt] at h2'
+        simp only [convert, legacyRefs, h1, h2f, h2', Node.deps, Bool.false_eq_true, if_false]
+  | .tuple [] => by
     by_cases h2 : inKeys keys (.tuple []) = true
     · have h2' := h2
       rw [inKeys_iff_ref keys hKt] at h2'
@@ -389,55 +223,56 @@ theorem convert_deps (keys : List Obj) (hKt : ∀ k ∈ keys, k.keyTyped = true)
       rw [inKeys_iff_ref keys hKt] at h2'
       simp only [Obj.hashable, hashableList, Bool.true_and] at h2'
       simp only [convert, legacyRefs, h2f, h2', Node.deps, Bool.false_eq_true, if_false]
-  | .list xs, hc => by
-    simp only [clean] at hc
-    have ih := convertList_deps keys hKt xs hc
+  | .list xs => by
+    have ih := convertList_deps keys hKt xs
     by_cases hg : (convertList keys xs).any Node.isGraphNode = true
     · simp [convert, hg, Node.deps, depsKw, ih, legacyRefs]
     · have hg' : (convertList keys xs).any Node.isGraphNode = false := by simpa using hg
       have e := convertList_no_graphNode keys xs hg'
       rw [e, depsList_raw] at ih
       simp [convert, hg', Node.deps, legacyRefs, ← ih]
-  | .dict kvs, hc => by
-    simp only [clean] at hc
-    have ih := convertVals_deps keys hKt kvs hc
+  | .dict kvs => by
+    have ih := convertVals_deps keys hKt kvs
     by_cases hg : (convertVals keys kvs).any Node.isGraphNode = true
     · simp [convert, hg, Node.deps, depsKw, ih, legacyRefs]
     · have hg' : (convertVals keys kvs).any Node.isGraphNode = false := by simpa using hg
       have e := convertVals_no_graphNode keys kvs hg'
       rw [e, depsList_rawItems] at ih
       simp [convert, hg', Node.deps, legacyRefs, ← ih]
-  | .int n, _ => by
+  | .int n => by
     by_cases h2 : inKeys keys (.int n) = true
     · have h2' := h2; rw [inKeys_iff_ref keys hKt] at h2'
       simp only [convert, legacyRefs, h2, h2', Node.deps, if_true]
     · have h2f : inKeys keys (.int n) = false := by simpa using h2
       have h2' := h2f; rw [inKeys_iff_ref keys hKt] at h2'
       simp only [convert, legacyRefs, h2f, h2', Node.deps, Bool.false_eq_true, if_false]
-  | .str s, _ => by
+  | .str s => by
     by_cases h2 : inKeys keys (.str s) = true
     · have h2' := h2; rw [inKeys_iff_ref keys hKt] at h2'
       simp only [convert, legacyRefs, h2, h2', Node.deps, if_true]
     · have h2f : inKeys keys (.str s) = false := by simpa using h2
       have h2' := h2f; rw [inKeys_iff_ref keys hKt] at h2'
       simp only [convert, legacyRefs, h2f, h2', Node.deps, Bool.false_eq_true, if_false]
-  | .none, _ => by rw [legacyRefs_plain keys hKt _ (by simp [plain])]; simp [convert, Node.deps]
-  | .fn _, _ => by rw [legacyRefs_plain keys hKt _ (by simp [plain])]; simp [convert, Node.deps]
-  | .quoted _, _ => by rw [legacyRefs_plain keys hKt _ (by simp [plain])]; simp [convert, Node.deps]
-  | .app _ _ _, _ => by rw [legacyRefs_plain keys hKt _ (by simp [plain])]; simp [convert, Node.deps]
+  | .none => by
+    simp only [convert, Node.deps, legacyRefs, not_key_of_not_keyTyped keys hKt .none rfl, Bool.false_eq_true, if_false]
+  | .fn f => by
+    simp only [convert, Node.deps, legacyRefs, not_key_of_not_keyTyped keys hKt (.fn f) rfl, Bool.false_eq_true, if_false]
+  | .quoted v => by
+    simp only [convert, Node.deps, legacyRefs, not_key_of_not_keyTyped keys hKt (.quoted v) rfl, Bool.false_eq_true,
+      if_false]
+  | .app f a k => by
+    simp only [convert, Node.deps, legacyRefs, not_key_of_not_keyTyped keys hKt (.app f a k) rfl, Bool.false_eq_true,
+      if_false]
 theorem convertList_deps (keys : List Obj) (hKt : ∀ k ∈ keys, k.keyTyped = true) :
-    ∀ xs, cleanList keys xs = true → depsList (convertList keys xs) = legacyRefsList keys xs
-  | [], _ => by simp [convertList, depsList, legacyRefsList]
-  | x :: xs, hc => by
-    simp only [cleanList, Bool.and_eq_true] at hc
-    simp [convertList, depsList, legacyRefsList, convert_deps keys hKt x hc.1, convertList_deps keys hKt xs hc.2]
+    ∀ xs, depsList (convertList keys xs) = legacyRefsList keys xs
+  | [] => by simp [convertList, depsList, legacyRefsList]
+  | x :: xs => by
+    simp [convertList, depsList, legacyRefsList, convert_deps keys hKt x, convertList_deps keys hKt xs]
 theorem convertVals_deps (keys : List Obj) (hKt : ∀ k ∈ keys, k.keyTyped = true) :
-    ∀ kvs, cleanVals keys kvs = true → depsList (convertVals keys kvs) = legacyRefsVals keys kvs
-  | [], _ => by simp [convertVals, depsList, legacyRefsVals]
-  | (k, v) :: rest, hc => by
-    simp only [cleanVals, Bool.and_eq_true] at hc
-    simp [convertVals, depsList, Node.deps, legacyRefsVals, convert_deps keys hKt v hc.1,
-      convertVals_deps keys hKt rest hc.2]
+    ∀ kvs, depsList (convertVals keys kvs) = legacyRefsVals keys kvs
+  | [] => by simp [convertVals, depsList, legacyRefsVals]
+  | (k, v) :: rest => by
+    simp [convertVals, depsList, Node.deps, legacyRefsVals, convert_deps keys hKt v, convertVals_deps keys hKt rest]
 end
 
 end Dask.TaskTerm
